@@ -433,6 +433,15 @@ func (m *Manager) lock() {
 				acctInfo.acctKeyPriv.Zero()
 			}
 			acctInfo.acctKeyPriv = nil
+
+			// The last external/internal addresses cached with the
+			// account are not necessarily part of manager.addrs.
+			if a, ok := acctInfo.lastExternalAddr.(*managedAddress); ok {
+				a.lock()
+			}
+			if a, ok := acctInfo.lastInternalAddr.(*managedAddress); ok {
+				a.lock()
+			}
 		}
 
 		// Zero and drop all cached derived private keys.
